@@ -42,9 +42,46 @@ def make_cmd_runner(name, cmd, prefix, oracle, reps_thorough=5, timing=True, sel
     return run
 
 
+def _race_blocks(out):
+    """split race-detector output into reports; each: (text, [top frame file of each access stack], [creation site files])"""
+    blocks = []
+    for part in out.split("=================="):
+        if "WARNING: DATA RACE" not in part:
+            continue
+        tops, created = [], []
+        body = part.replace("WARNING: DATA RACE", "").strip()
+        for sec in re.split(r"\n\s*\n", body):
+            lines = [l for l in sec.strip().splitlines() if l.strip()]
+            if not lines:
+                continue
+            head = lines[0]
+            files = [l.strip().split(" ")[0] for l in lines[1:] if l.strip().startswith("/")]
+            if "created at" in head:
+                created.extend(files[:2])
+            elif re.search(r"(Read|Write|read|write) at 0x", head) and files:
+                tops.append(files[0])
+        blocks.append((part.strip()[:3000], tops, created))
+    return blocks
+
+
+def _known_race(pid, tops, created):
+    try:
+        kfs = json.load(open("/verif/known_findings.json"))["findings"]
+    except Exception:
+        return None
+    for kf in kfs:
+        sig = kf.get("race_signature")
+        if kf.get("property") != pid or kf.get("status") != "open" or not sig:
+            continue
+        if tops and all(sig["top_frames_in"] in t for t in tops) and any(sig["created_in"] in c for c in created):
+            return kf
+    return None
+
+
 def stress_runner(scn, oracle, race=False, scale_quick=1, scale_thorough=6, confirm=2):
     """runner for `harness stress <scn>`: TRACE tie / search engine of a concurrency property. A violation must reproduce on
-    `confirm` further runs (other seeds) before it counts, because the monitors observe a real scheduler."""
+    `confirm` further runs (other seeds) before it counts, because the monitors observe a real scheduler. With race=True the
+    race-enabled build is run: every race report is a violation unless it matches an open known finding's race signature."""
     name = "STRESS " + scn + (" (-race)" if race else "")
     def run(ctx):
         binary = os.path.join(ctx["build"], "harness-race" if race else "harness")
@@ -58,29 +95,38 @@ def stress_runner(scn, oracle, race=False, scale_quick=1, scale_thorough=6, conf
             try:
                 rc, out = _run([binary, "stress", scn, "-seed", str(seed), "-scale", str(scale)], timeout=1500, env=env)
             except subprocess.TimeoutExpired:
-                return 1, "stress %s runs=0 violations={watchdog: 1} VIOLATION (timeout: deadlock?)" % scn, 0
-            races = out.count("WARNING: DATA RACE")
+                return 1, "stress %s runs=0 violations={watchdog: 1} VIOLATION (timeout: deadlock?)" % scn, [], ""
             line = next((l for l in out.splitlines() if l.startswith("stress " + scn)), "stress %s produced no summary: %s" % (scn, out[-300:]))
-            return rc, line, races, out
-        r = once(ctx["seed"])
-        line, races = r[1], r[2]
-        full = r[3] if len(r) > 3 else ""
+            return rc, line, _race_blocks(out) if race else [], out
+        rc, line, blocks, full = once(ctx["seed"])
         m = re.search(r"runs=(\d+)", line)
         runs = int(m.group(1)) if m else 0
-        bad = (not line.endswith(" ok")) or races > 0
+        bad = not line.endswith(" ok")
         if bad and not race:
             again = sum(1 for k in range(confirm) if not once(ctx["seed"] + 101 * (k + 1))[1].endswith(" ok"))
             if again == 0:
                 bad = False
                 line += "  [a violation in the first run did not reproduce on %d further seeds: scheduling artefact of the monitor]" % confirm
-        res = {"name": name, "ok": not bad, "evaluations": runs, "nontrivial": runs, "traces": runs, "samples": [line[:600]], "violations": []}
+        res = {"name": name, "ok": True, "evaluations": runs, "nontrivial": runs, "traces": runs, "samples": [line[:600]], "violations": [], "known": []}
+        replay = ("{harness_race}" if race else "{harness}") + " stress %s -seed %d -scale %d" % (scn, ctx["seed"], scale)
         if bad:
-            detail = line
-            if races:
-                i = full.find("WARNING: DATA RACE")
-                detail = full[i:i + 2500]
-            res["violations"].append({"kind": "counterexample", "obligation": name, "case": [detail], "oracle": oracle,
-                                      "replay_shell": ("{harness_race}" if race else "{harness}") + " stress %s -seed %d -scale %d" % (scn, ctx["seed"], scale)})
+            res["ok"] = False
+            res["violations"].append({"kind": "counterexample", "obligation": name, "case": [line], "oracle": oracle, "replay_shell": replay})
+        seen_known, new_races = set(), 0
+        for text, tops, created in blocks:
+            kf = _known_race(ctx["pid"], tops, created)
+            if kf:
+                if kf["id"] not in seen_known:
+                    seen_known.add(kf["id"])
+                    res["known"].append(kf["what"])
+                continue
+            new_races += 1
+            if new_races <= 2:
+                res["ok"] = False
+                res["violations"].append({"kind": "counterexample", "obligation": name, "case": [text], "oracle": "the race detector reported a data race (happens-before based: the report does not depend on the failure manifesting)",
+                                          "race_top_frames": tops, "race_created_at": created, "replay_shell": "GORACE=halt_on_error=0 " + replay})
+        if race:
+            res["samples"].append("race reports: %d (%d matching open known findings)" % (len(blocks), len(blocks) - new_races))
         return res
     return run
 
@@ -375,6 +421,41 @@ PROPS["C18"] = {
         "text": "Lean 4 theorems over the adapter models: a response is retried iff its status is 429 or >= 500 and not 501, an error iff it is not one of the documented terminal errors (proved about the predicate regenerated from failsafehttp/policy.go); DelayFunc yields Retry-After seconds exactly for 429/503 with an integer header and the scheduled retry delay is then at least that long; the retry loop over any server script makes attempt j+1 iff all earlier attempts were retryable and not aborted and the budget allows, never more than maxRetries+1, and returns the last attempt's result (ExceededError only when the budget is used up); every body kind, content, hand-over offset and number of sequential attempts replays exactly the bytes a plain request would have sent; buffered bodies are independent under any interleaving of concurrent attempts (seekable streams are not: witness, known finding D9); the merged context carries the caller's values and deadline and is done iff the caller's, the execution's or its own release fires; the gRPC policy retries exactly Unavailable / DeadlineExceeded / ResourceExhausted (table extracted from the source). Tie: GEN for the three predicates (Generated = Model proved each run), FACTS (builder chains, regexes, code table, bodies of doRequest / bodyReader / MergeContexts / interceptors), DIFF end to end against a loopback server and fake invoker / handler.",
         "note": "Trusted: Lean kernel; translator + schema; fact extractor; harness and its loopback server. Partial: net/http, grpc-go and context propagation are modelled; request fidelity (method, URL, headers) and gRPC pass-through are validated by DIFF and body facts rather than proved; hedge + seekable body is an open known finding.",
         "technique": "Lean 4 proof (truth tables of the regenerated predicates, induction over the retry loop and over attempts, invariants over interleavings of reads, context algebra) + regenerated-kernel tie + structural facts + differential correspondence end to end"},
+}
+
+PROPS["C14"] = {
+    "props": "Failsafe.Props.C14", "ties": [], "kernels": [], "race": True,
+    "facts": ["accessTable", "unguardedAccesses", "callsUnderLock", "liveExecutionToUserCode", "unlockedGetterCallSites", "executeLoop", "spawnSites",
+              "locks/circuitBreaker.TryAcquirePermit", "locks/circuitBreaker.RecordSuccess", "locks/circuitBreaker.RecordFailure", "locks/circuitBreaker.RecordResult",
+              "locks/circuitBreaker.RecordError", "locks/circuitBreaker.Open", "locks/circuitBreaker.HalfOpen", "locks/circuitBreaker.Close", "locks/circuitBreaker.State",
+              "locks/circuitBreaker.RemainingDelay", "locks/circuitBreaker.Executions", "locks/circuitBreaker.Failures", "locks/circuitBreaker.FailureRate",
+              "locks/circuitBreaker.Successes", "locks/circuitBreaker.SuccessRate", "locks/smoothStats.acquirePermits", "locks/burstyStats.acquirePermits",
+              "locks/execution.Cancel", "locks/execution.InitializeRetry", "locks/execution.RecordResult", "locks/execution.IsCanceledWithResult",
+              "bodies/execution:execution.copy", "bodies/execution:execution.Cancel", "bodies/executor:executor.execute", "bodies/circuitbreakerexecutor:executor.OnFailure",
+              "bodies/circuitbreakerexecutor:executor.OnSuccess", "bodies/retry:retryPolicy.ToExecutor", "bodies/timeoutexecutor:executor.Apply", "bodies/hedgeexecutor:executor.Apply",
+              "bodies/result:executionResult.record"],
+    "required_theorems": ["Failsafe.Props.C14.lock_discipline_orders_accesses", "Failsafe.Props.C14.no_unordered_pair", "Failsafe.Props.C14.unguarded_accesses_are_the_justified_ones",
+                          "Failsafe.Props.C14.getter_call_sites", "Failsafe.Props.C14.live_execution_never_escapes", "Failsafe.Props.C14.calls_under_lock_are_the_listeners",
+                          "Failsafe.Props.C14.no_deadlock"],
+    "diff": [],
+    "rule": "STRESS shared under the race detector: 12 workers x 60 (x scale) executions (two thirds sync, one third async, a quarter of those cancelled) through ONE set of nine "
+            "executors sharing ONE breaker, bulkhead, bursty and smooth limiter, retry policy (with a DelayFunc and listeners that read the attempt they are handed), timeout, hedge "
+            "and fallback instance, with function durations 0-0.5 ms around the 0.4 ms timeout and 0.1 ms hedge delay, while another goroutine calls the standalone API "
+            "(Record*, Metrics, RemainingDelay, State, Open / HalfOpen / Close, TryAcquirePermit, AcquirePermit with a deadline, ReleasePermit, TryAcquirePermits, ReservePermit, "
+            "TryReservePermit); every race report must match an open known finding's signature (both access stacks and the goroutine creation site); watchdog for deadlock, "
+            "recover for panics. Thorough tier additionally runs the per-property concurrent scenarios (timeout, bulkhead, breaker, hedge, cancel, future) under the race detector",
+    "runners": [stress_runner("shared", "executions and standalone calls sharing policy instances deadlocked or panicked", race=False),
+                stress_runner("shared", "data race between goroutines using shared policy instances or one execution's state", race=True, scale_quick=2, scale_thorough=8)],
+    "assumptions": ["the Go scheduler's interleavings are sampled; the race detector's verdict is happens-before based but only for the accesses a run performs",
+                    "a breaker state-change listener does not call back into the breaker that invoked it (it runs under the breaker's mutex)",
+                    "user functions cooperate with cancellation and do not panic"],
+    "modelled": ["the Go memory model is modelled by traces of acquire / release / access events; atomics and channels count as synchronisation by their type",
+                 "aliasing is approximated syntactically: accesses are `receiver.field` selectors in methods of the struct; state reached through other paths is covered by the race-detector run only",
+                 "hedge attempts share the inner retry policy's executor: open known finding D4"],
+    "manifest": {
+        "text": "Lean 4 theorems: in every trace of any number of threads that respects mutex semantics and the lock discipline (every access to a variable is made while owning its mutex), two accesses to one variable by different threads are separated by a release by the first and a later acquisition by the second thread of that mutex - the happens-before chain of the Go memory model, hence no data race on mutex-guarded state; no deadlock among mutexes that are never acquired nested. The discipline is tied to the source by FACTS regenerated on every run: the access table of the seven shared structs (every receiver.field access, read / write, guard: mutex region, externally locked method whose callers all lock, atomic / channel, immutable, none), whose unguarded rows must equal the justified list proved by decide (unlocked getters on per-copy fields that user code only receives as copies; the retry executor's per-execution fields), the call sites of those getters, the call sites that hand an execution to user code, and what runs under a mutex (only the breaker's listeners). Search / validation: the shared-instances stress run with and without the race detector; race reports are matched against open known findings by both access stacks and the creation site.",
+        "note": "Trusted: Lean kernel; fact extractor (syntactic aliasing); harness; race detector. Partial: schedules are sampled; 'every property holds per execution' rests on the interleaving theorems of C02/C04/C06-C09/C15 and their stress oracles; hedge over retry is an open known finding (D4).",
+        "technique": "Lean 4 proof (trace induction: lock discipline implies ordered accesses; no deadlock without nesting) + access-table facts decided against a justified list + race-detector stress"},
 }
 
 PROPS["C19"] = {
